@@ -18,7 +18,7 @@ from vf import par
 NEEDS_SERVICES = True
 
 GRID_Q = (0, 250, 1000, 1250, 3000)
-FREE_Q = (-1000, 0, 1, 2, 3, 5, 249, 250, 251, 500, 999, 1000, 1001, 1250, 2500, 3001, 4999, 7000, 12000, 10**6)
+FREE_Q = (-1000, 0, 1, 2, 3, 249, 250, 251, 999, 1000, 1001, 2500, 4999, 12000, 10**6)
 GRID_T = (0, 1, 250, 1000, 1250, 3000)
 FREE_T = (-1000, -1, 0, 1, 2, 3, 4, 5, 7, 249, 250, 251, 500, 999, 1000, 1001, 1250, 2500, 3001, 4999, 7000,
           12000, 10**6)
